@@ -376,6 +376,8 @@ func (f *Frame) enterLoop(h *ssa.BasicBlock, li *loopInfo, live []inEdge, header
 	for k := range st.Ghost {
 		if strings.HasPrefix(k, "result:") {
 			st.Ghost[k] = c.fresh("loopghost", SInt)
+		} else if strings.HasPrefix(k, "res:") {
+			st.Ghost[k] = c.fresh("loopghost", st.Ghost[k].Sort)
 		} else {
 			st.Ghost[k] = c.fresh("loopghost", SBool)
 		}
@@ -700,14 +702,18 @@ func (f *Frame) evalLoopClause(cl *Clause, st *State, phis []*ssa.Phi, next map[
 		panic(unsupportedErr{fmt.Sprintf("contract-target-changed: %s: loop clause %s:%d binds %d of %d loop-carried variables (%s)", f.label, shortPos(cl.File), cl.Line, vi, len(phis), phiNames(phis))})
 	}
 	// source-level locals (not loop-carried), by name
-	for _, name := range spec.Locals {
+	for li, name := range spec.Locals {
 		v, has := f.localVals[name]
 		if !has {
 			panic(unsupportedErr{fmt.Sprintf("contract-target-changed: %s: local %q of a loop clause is not defined before the loop", f.label, name)})
 		}
 		ts := f.get(v)
 		if f.localAddr[name] {
-			ts = f.ctx.load(st, f.ctx.shapeOf(ts[0], v.Type()))
+			// a clause may name the variable itself (declared with a pointer type) instead of its value
+			pi := sig.Params().Len() - len(spec.Locals) + li
+			if pi < 0 || !types.Identical(sig.Params().At(pi).Type(), v.Type()) {
+				ts = f.ctx.load(st, f.ctx.shapeOf(ts[0], v.Type()))
+			}
 		}
 		args = append(args, ts)
 	}
